@@ -19,8 +19,8 @@ Semantics of the subset (the translator's conventions; printed in the generated 
     definition or of a raising table entry is `match … with | .error e => .error e | .ok x => …` where the statement stands, in
     Python's evaluation order (arguments before the call, the right-hand side before the targets, targets left to right);
   * straight-line code is SSA-renamed, every assignment is a `let`; tuple targets are read by projections;
-  * an adjacency matrix arrives in a CONTAINER (`SrcGH.Container`: nested lists, ndarray, scipy sparse of some format); an
-    integer array is the pair of its entries and its dtype (`IntArr`); a float matrix that may hold `inf` is a `DMat`;
+  * an adjacency matrix arrives in a CONTAINER (`SrcGH.Container`: nested lists, ndarray of any memory layout, scipy sparse of
+    some format); an integer array is the pair of its entries and its dtype (`IntArr`); a float matrix that may hold `inf` is a `DMat`;
   * the two call forms of `gromov_hausdorff` are the two values of the test `AH is None`: the function is translated once per
     form (`GHArgs.pair` / `GHArgs.coll`), the tests `AH is None` / `AH is not None` being the constants they are in that form;
   * `for x in range(…)` is a structural recursion over the list of indices (`<f>_loop`, nested: `<f>_loop_2`) carrying the
@@ -237,7 +237,7 @@ def check_live(n, where):
 
 
 # names the translation resolves BY SPELLING: binding one of them inside a translated function is outside the subset
-SPELLED = {"len", "range", "next", "isinstance", "np", "sps", "warnings", "shortest_path", "connected_components", "estimate",
+SPELLED = {"len", "range", "next", "np", "sps", "warnings", "shortest_path", "connected_components", "estimate",
            "ValueError", "StopIteration"}
 
 
@@ -289,14 +289,13 @@ def _issparse(tr, b):
     return "pure", V("issparse %s" % tr.expr(b["_A"], "C").a(), "B", atom=False)
 
 
-@idiom("isinstance(_A, np.ndarray)", "isNdarray A")
-def _isnd(tr, b):
-    return "pure", V("isNdarray %s" % tr.expr(b["_A"], "C").a(), "B", atom=False)
-
-
-@idiom("np.asarray(_A)", "asarray A")
-def _asarray(tr, b):
-    return "pure", V("asarray %s" % tr.expr(b["_A"], "C").a(), "C", atom=False)
+@idiom("np.ascontiguousarray(_A)", "ascontiguousarray A",
+       "the SAME matrix of entries as a C-contiguous `ndarray`: nested lists become an array, an array of any memory layout "
+       "(transposed, Fortran-ordered, fancy-indexed, strided, read-only) keeps its entries; memory layout is not modelled; the "
+       "result MAY BE its argument -- no statement of the subset writes into a container, index assignment is accepted for an "
+       "owned `np.zeros` array only")
+def _ascontig(tr, b):
+    return "pure", V("ascontiguousarray %s" % tr.expr(b["_A"], "C").a(), "C", atom=False)
 
 
 @idiom("_A.tocsr()", "tocsr A", "`AttributeError` unless sparse")
@@ -992,7 +991,6 @@ BINDINGS = {KEY: [
     ('determine_optimal_int_type', 'def determine_optimal_int_type'),
     ('estimate', 'def estimate'),
     ('gromov_hausdorff', 'def gromov_hausdorff'),
-    ('isinstance', 'builtin'),
     ('len', 'builtin'),
     ('make_distance_matrix_from_adjacency_matrix', 'def make_distance_matrix_from_adjacency_matrix'),
     ('next', 'builtin'),
